@@ -24,7 +24,8 @@ ASSUMPTIONS = ['bounded time = at most 200 000 line/jump events of the interpret
                'terminating calls is reported as max_line_events)',
                'only Exception subclasses are injected into callbacks (KeyboardInterrupt/SystemExit are not "raising callbacks")',
                'a result that is a list *containing* error objects is not excluded by the statement',
-               'numbers in the sweep are <= 1000 in magnitude (C-level blow-ups such as 9^999999999 are out of bound)']
+               'numbers in the sweep are <= 1000 in magnitude (C-level blow-ups such as 9^999999999 are out of bound)',
+               'a host list that contains itself is out of bound (flattening it cannot terminate); lists nested 3000 deep are in']
 
 
 def wellformed(r):
@@ -61,9 +62,10 @@ def budget_of(env):
     return b
 
 
-def run_parse(env, parser, text):
-    """-> (problem or None, raw)"""
+def run_parse(env, parser, text, per_char=0):
+    """-> (problem or None, raw).  per_char: extra line events allowed per input character (deep/long inputs)"""
     b = budget_of(env)
+    b.limit = 200000 + per_char * len(text)
     env.evals += 1
     kind, val = b.run(parser.parse, text)
     env.maxline = max(getattr(env, 'maxline', 0), b.max_seen)
@@ -574,4 +576,64 @@ class Repetition(Sub):
         return out
 
 
-SUBS = [Soups(), CodePoints(), Functions(), Faults(), Truncations(), Repetition()]
+DEEP_TEMPLATES = [('(', '1', ')'), ('{', '1', '}'), ('SUM(', '1', ')'), ('-', '1', ''), ('ABS(-', '1', ')'),
+                  ('IF(1,', '1', ',2)'), ('{1,', '2', '}'), ('FN(', 'va', ')'), ('(1+', '1', ')'), ('IFERROR(', '1/0', ',1)')]
+DEEP_CHAINS = ['+1', '&"a"', '*va', '=1', ',1', ';1', ' ', '%', '<>2', '-A1']
+
+
+class Deep(Sub):
+    name = 'c01.deep'
+    rule = ('nesting to depth N of 10 bracketing templates (parentheses, array braces, built-in / custom calls, unary minus, '
+            'IF chains) and chains of N operators / separators, plus host-supplied lists nested N deep used as variable, cell and function result in 9 formulas: parse returns a well-formed record '
+            '(step budget scaled by 300 events per input character); non-trivial = depth >= 500')
+    min_cases = 20
+    min_nontrivial = 10
+
+    def cases(self, tier, unit):
+        depths = (50, 1500) if tier == 'quick' else (50, 500, 1100, 1500, 3000)
+        for n in depths:
+            for i in range(len(DEEP_TEMPLATES)):
+                yield ['nest', i, n]
+            for i in range(len(DEEP_CHAINS)):
+                yield ['chain', i, n]
+            for route in ('var', 'cell', 'fn'):
+                yield ['host', route, n]
+
+    def check(self, env, case):
+        kind, i, n = case
+        if n >= 500:
+            env.nt()
+        p = env.new_parser()
+        p.set_variable('va', 2)
+        p.set_function('FN', lambda *a: a[0] if a else 0)
+        p.on('callCellValue', lambda cell, setter: setter(3))
+        if kind == 'nest':
+            a, mid, b = DEEP_TEMPLATES[i]
+            texts = [a * n + mid + b * n, a * n + mid + b * (n - 1), a * n]
+        elif kind == 'chain':
+            texts = ['1' + DEEP_CHAINS[i] * n, 'SUM(1' + DEEP_CHAINS[i] * n + ')']
+        else:
+            deep = [1, 'a']
+            for _ in range(n):
+                deep = [deep, 2]
+            if i == 'var':
+                p.set_variable('xs', deep)
+                ref = 'xs'
+            elif i == 'cell':
+                p.off('callCellValue')
+                p.on('callCellValue', lambda cell, setter: setter(deep))
+                ref = 'B2'
+            else:
+                p.set_function('DEEPFN', lambda: deep)
+                ref = 'DEEPFN()'
+            texts = [f.replace('X', ref) for f in ('X', 'SUM(X)', 'X+1', 'COUNT(X)', 'CONCATENATE(X)', 'AND(X)', 'LARGE(X,1)',
+                                                   'INDEX(X,1)', 'X&"a"', 'X=X', 'IFERROR(X,1)', '-X', '{1,2}+X')]
+        for text in texts:
+            prob, raw = run_parse(env, p, text, per_char=300)
+            if prob:
+                shown = text if len(text) < 80 else '%s ... (%d characters)' % (text[:40], len(text))
+                return fail('parse(%s) [%s %s depth %s]: %s' % (shown, kind, i, n, prob))
+        return None
+
+
+SUBS = [Soups(), CodePoints(), Functions(), Faults(), Truncations(), Repetition(), Deep()]
